@@ -6,6 +6,7 @@ mod gen;
 mod insp;
 mod replay;
 mod run;
+mod stat;
 mod rx;
 mod tree;
 mod val;
@@ -142,6 +143,20 @@ fn real_main(cmd: String, args: Vec<String>) -> i32 {
                 }
             }
             println!("{}", json!({"recorded": n}));
+            0
+        }
+        "gen" => {
+            // cvh gen --family F --n N --seed S --size K: random well-formed grammars of a family, one JSON per line
+            let fam = arg(&args, "--family").unwrap_or("peg".into());
+            let n: usize = arg(&args, "--n").and_then(|x| x.parse().ok()).unwrap_or(10);
+            let seed: u64 = arg(&args, "--seed").and_then(|x| x.parse().ok()).unwrap_or(1);
+            let size: usize = arg(&args, "--size").and_then(|x| x.parse().ok()).unwrap_or(6);
+            let f = gen::family(&fam);
+            let mut r = gen::Rng::new(seed);
+            for _ in 0..n {
+                let budget = 2 + r.below(size);
+                println!("{}", gen::gen_wf(&mut r, &f, budget));
+            }
             0
         }
         "one" => {
